@@ -340,13 +340,7 @@ class C09(Prop):
         ds = [dashed(n) for n in names]
         clash = len(set(ds)) < len(ds)
         if "err" in obs:
-            if clash or obs["err"] != "ValueError" or not case["auto"]:
-                return None
-            # an earlier parameter's auto short flag is a later parameter's whole dashed name
-            for j, q in enumerate(names):
-                if "_" in q and len(ds[j]) == 1 and any(ds[j] in ds[i] for i in range(j)):
-                    return "F-C09c"
-            return None
+            return None          # F-C09c (refused although dashed names distinct) is fixed: d208a4d
         if clash:
             return None
         if any(d == "" for d in ds):
